@@ -27,7 +27,7 @@ TEXT = {
  "C10": ("exploration", "reference implementations written from the RFCs (PRF, EMS, key block, verify_data, exporters, GCM/CCM/ChaCha/CBC records with RFC 9146 CID layouts, HKDF-Expand-Label, traffic keys, sequence-number masking, 1.3 AEAD) compared with the library on generated inputs, and a passive decoder that must decrypt, verify both Finished and reproduce the exporter of live sessions from the key log / secret hook alone (each side's key log separately, resumed sessions, later 1.3 generations derived by the decoder itself); records re-protected by a translator with the header layouts this library never writes (8-bit sequence number, no length) must be accepted",
          "reference and library share crypto/aes, sha256, x/crypto chacha20poly1305 primitives; CCM and HKDF are re-implemented; RFC test vectors pin the references",
          "differential property-based testing (rapid) against independent RFC reference implementations + live-session passive decoding; oracle = byte equality"),
- "C11": ("exploration", "generated client/server policies (version ranges, suite lists, key types, curves, signature schemes, SRTP, ALPN, EMS modes, PSK hints, certificates of several key types selected by name, option order, verifying clients, client authentication, certificate-signature-scheme lists on either side) run live; negotiated outputs compared with a policy model; failure must come with an alert and no silent downgrade",
+ "C11": ("exploration", "generated client/server policies (version ranges, suite lists, key types, curves, signature schemes, SRTP, ALPN, EMS modes, PSK hints, certificates of several key types selected by name, option order, verifying clients, client authentication, certificate-signature-scheme lists on either side) run live; scripted DTLS 1.0-only hello against every server version range; negotiated outputs compared with a policy model; failure must come with an alert and no silent downgrade",
          "policy model written from documented option semantics; where documentation is silent the model abstains (class 'unspecified')",
          "property-based testing (rapid) over policy pairs against a negotiation model on a virtual network; oracle = every negotiated parameter inside both policies and highest common version"),
  "C05": ("exploration", "every suite x CID layout x direction: held genuine records, generated forgeries (all header/edge bit flips, field neighbour values, truncations, extensions, cross-session splices incl. a second resumption of the same stored session under deterministic hello randoms, recombinations, records protected under keys derived from public values) must vanish without effect and the genuine record must still be delivered once",
